@@ -109,6 +109,23 @@ class P2(ScriptProc):
 PROCS = [P0, P1, P2]
 
 
+class BoolFalseWorld(desper.World):
+    """A perfectly good world that happens to be falsy."""
+
+    def __bool__(self):
+        return False
+
+
+class LenZeroWorld(desper.World):
+    """Falsy through __len__ (e.g. 'number of game objects', none yet)."""
+
+    def __len__(self):
+        return 0
+
+
+WORLD_CLASSES = {None: desper.World, 'bool': BoolFalseWorld, 'len': LenZeroWorld}
+
+
 class PlainHandle(desper.Handle):
     loads = 0
     first = None
@@ -124,7 +141,7 @@ class PlainHandle(desper.Handle):
         if self.loads > 1:
             self.ctx.sp.fail('handle-reloaded', 'handle %s is loaded a second time although no clear flag was ever '
                              'passed to switch() / SwitchWorld / loop.switch' % self.tag)
-        w = desper.World()
+        w = WORLD_CLASSES[self.ctx.falsy]()
         self.first = w
         for P in PROCS[:self.ctx.n_procs]:
             w.add_processor(P(self.ctx), P.index)
@@ -149,6 +166,7 @@ class Ctx:
         self.direct = direct
         self.lraise = lraise
         self.swfail = swfail
+        self.falsy = None           # None | 'bool' | 'len': worlds are instances of a falsy World subclass
         self.swboom_world = None    # world whose listener is scripted to fail during the switch into it
         self.resync = False         # a switch failed: current world is don't-care, the harness re-seats it
         self.fail_handle = FailHandle(self)
@@ -309,6 +327,8 @@ class Ctx:
                 sp.cover('on_quit-current' if a in ('quit_loop', 'quit_loop_lraise') else 'on_quit-given-current')
             # if the listener is reached it replaces self.stop by ('raise', its exception); a muted target holds
             # on_quit, the listener is not reached and this is an ordinary quit
+            if self.falsy and a != 'quit_loop':
+                sp.cover('falsy-quit-given')
             self.stop = ('quit', target, target.dispatch_enabled)
             self.quits_before = list(self.quits)
             self.boom_world = target if a.endswith('lraise') else None
@@ -355,9 +375,13 @@ class Ctx:
         raise AssertionError(a)
 
 
-def h_loop(sp, starts=2, frames=3, n_procs=2, n_worlds=2, raw=False, direct=False, lraise=False, swfail=False):
+def h_loop(sp, starts=2, frames=3, n_procs=2, n_worlds=2, raw=False, direct=False, lraise=False, swfail=False,
+           falsy=False):
     per_start = list(frames) if isinstance(frames, (list, tuple)) else [frames] * starts
     ctx = Ctx(sp, per_start[0], n_procs, n_worlds, raw, direct, lraise, swfail)
+    if falsy:
+        ctx.falsy = sp.pick(['bool', 'len'], 'falsy-world-class')
+        sp.note('all worlds are instances of %s (falsy)' % WORLD_CLASSES[ctx.falsy].__name__)
     loop = desper.SimpleLoop(time_function=ctx.tf)
     ctx.loop = loop
     saved = desper.default_loop
@@ -472,6 +496,12 @@ HARNESSES = {
                                   'switch-load-raises', 'switch-listener-raises', 'restart-after-failed-switch',
                                   'exception', 'raw-quit', 'on_quit-current', 'switch', 'flag-omitted'],
                         concolic=True),
+    'loop-falsy': dict(fn=h_loop,
+                       nontrivial=['dt-later-frame', 'restart', 'dt-across-switch', 'exception', 'on_quit-given-other'],
+                       required=['dt-later-frame', 'restart-after-exception', 'restart-after-quit', 'dt-across-switch',
+                                 'exception', 'raw-quit', 'on_quit-current', 'on_quit-given-current',
+                                 'on_quit-given-other', 'falsy-quit-given', 'switch', 'flag-omitted'],
+                       concolic=True),
     'loop-1p': dict(fn=h_loop,
                     nontrivial=['dt-later-frame', 'restart', 'dt-across-switch', 'exception', 'on_quit-given-other'],
                     required=['dt-later-frame', 'restart-after-exception', 'restart-after-quit', 'dt-across-switch',
@@ -500,6 +530,7 @@ TIERS = {
         ('loop-lraise', dict(starts=2, frames=(2, 2), n_procs=2, n_worlds=2, raw=False, lraise=True)),
         ('loop-swfail', dict(starts=2, frames=(2, 2), n_procs=2, n_worlds=2, raw=False, swfail=True)),
         ('loop-swfail', dict(starts=2, frames=(2, 2), n_procs=2, n_worlds=2, raw=True, swfail=True)),
+        ('loop-falsy', dict(starts=2, frames=(2, 2), n_procs=2, n_worlds=2, raw=False, falsy=True)),
     ],
     'thorough': [
         ('loop', dict(starts=2, frames=(4, 2), n_procs=2, n_worlds=2, raw=False)),
@@ -519,6 +550,8 @@ TIERS = {
         ('loop-swfail', dict(starts=2, frames=(3, 2), n_procs=2, n_worlds=2, raw=False, swfail=True)),
         ('loop-swfail', dict(starts=2, frames=(3, 2), n_procs=2, n_worlds=2, raw=True, swfail=True)),
         ('loop-swfail', dict(starts=3, frames=(2, 2, 2), n_procs=1, n_worlds=2, raw=True, swfail=True)),
+        ('loop-falsy', dict(starts=2, frames=(3, 2), n_procs=2, n_worlds=2, raw=False, falsy=True)),
+        ('loop-falsy', dict(starts=2, frames=(2, 2), n_procs=2, n_worlds=2, raw=True, falsy=True)),
     ],
 }
 BUDGET_S = {'quick': 120, 'thorough': 1500}
@@ -563,6 +596,8 @@ ASSUMPTIONS = [
     'every switch in this harness (desper.switch, raw SwitchWorld, direct loop.switch) omits clear_current / '
     'clear_next, which must mean False: no handle is ever loaded twice and every handle keeps its world (the clear '
     'flags themselves are C13)',
+    'falsy=True entries: every world is an instance of a World subclass whose truth value is False (__bool__ False '
+    'or __len__ 0); quit_loop(world) must deliver on_quit to exactly that world all the same',
     'desper.default_loop is pointed at the loop under test for the duration of a path (quit_loop() / switch() '
     'without a world look there) and restored afterwards',
     'the last permitted frame of every start must end in Quit / quit_loop / ValueError (bounded scripts)',
